@@ -18,6 +18,14 @@ def InlineFlagsOnly (x : PipelineX.Exts) : Prop :=
 
 instance (x : PipelineX.Exts) : Decidable (InlineFlagsOnly x) := by unfold InlineFlagsOnly; infer_instance
 
+/-- the source domain with wikilinks: `C10DomainL` (no `<`, `&`; in the normalised text no backslash immediately before
+    a backtick, no `![`, no `](`), and — when the wikilinks extension is on — the normalised text has no `[` immediately
+    followed by a blank, which excludes the blank labels `[[   ]]` (for which the pattern stashes the empty string) -/
+def C10DomainW (wl : Bool) (tab : Nat) (s : Str) : Prop :=
+  C10DomainL tab s ∧ (wl = true → NoPair '[' ' ' (Normalize.normalize tab s))
+
+instance (wl : Bool) (tab : Nat) (s : Str) : Decidable (C10DomainW wl tab s) := by unfold C10DomainW; infer_instance
+
 theorem parseDocumentXT_core (tab : Nat) (text : Str) :
     BlockExt.parseDocumentXT false
       { admonition := false, defList := false, footnotes := false, abbr := false, saneLists := false } tab text =
@@ -80,24 +88,68 @@ theorem convertX_inline_ok {nl wl : Bool} {cfg : Pipeline.Cfg} {src out : Str}
                 refine ⟨root, refs, t, xs, u, _, rfl, hr, hu, ?_, rfl⟩
                 simp only [Post.finish, Post.post, hs, hraw, Option.map_some]
 
-/-- end to end with nl2br (wikilinks off) on the domain of `C10_partial_links` -/
-theorem convertX_noctl_nl {x : PipelineX.Exts} (hx : InlineFlagsOnly x) (hw : x.wikilinks = false)
+/-! ### the block parser keeps the exclusion of blank wikilink labels -/
+
+theorem prepare_eq_normalize (cfg : Pipeline.Cfg) {s : Str} (h : C10DomainL cfg.tab s) :
+    Pipeline.prepare cfg s = Normalize.normalize cfg.tab s := by
+  have hamp : '&' ∉ Normalize.normalize cfg.tab s := by
+    intro hm
+    rcases (Normalize.mem_normalize hm).1 with e | e | hm'
+    · exact absurd e (by decide)
+    · exact absurd e (by decide)
+    · have := h.1 _ hm'
+      simp [domCharB] at this
+  exact extract_no_amp hamp
+
+/-- the string property that the block parser keeps: characters of the domain, none of the three adjacencies, and
+    (with wikilinks) no `[` immediately before a blank -/
+theorem strDom_adj3q (wl : Bool) : BlkB.StrDom (fun c => Blk.okc c && domCharB c) Blk.okc
+    (fun s => (Blk.AllC (fun c => Blk.okc c && domCharB c) s ∧ Adj3 s) ∧ Qw wl s) where
+  chars := BlkB.charDom_domB
+  allc := fun _ hs => hs.1.1
+  nil := ⟨strDom_adj3.nil, qw_nil wl⟩
+  inf := fun s t hs ht => ⟨strDom_adj3.inf s t hs.1 ht, hs.2.infix ht⟩
+  joinNl := fun a b ha hb => ⟨strDom_adj3.joinNl a b ha.1 hb.1, qw_joinNl ha.2 hb.2⟩
+
+theorem bnodeP_split {wl : Bool} {n : Node}
+    (h : BlkB.BNodeP (fun c => Blk.okc c && domCharB c) Blk.okc
+      (fun s => (Blk.AllC (fun c => Blk.okc c && domCharB c) s ∧ Adj3 s) ∧ Qw wl s) n) :
+    WNodeB 0 n ∧ QN wl n :=
+  ⟨wnodeB_of_bnodeP ⟨h.1, h.2.1.1, fun ha => (h.2.2 ha).1⟩, fun ha => (h.2.2 ha).2, h.2.1.2⟩
+
+/-! ### end to end -/
+
+/-- end to end with nl2br and wikilinks on the domain of `C10_partial_links`; with wikilinks the normalised text has
+    no `[` immediately before a blank -/
+theorem convertX_noctl_inline {x : PipelineX.Exts} (hx : InlineFlagsOnly x)
     {cfg : Pipeline.Cfg} (hcfg : EscOK cfg.esc) {src out : Str} (hd : C10DomainL cfg.tab src)
+    (hq : Qw x.wikilinks (Normalize.normalize cfg.tab src))
     (h : PipelineX.convertX x cfg src = .ok out) : NoCtl out := by
   obtain ⟨fc, tb, ad, dl, ab, fnn, sl, nl, wl, al, toc⟩ := x
   obtain ⟨h1, h2, h3, h4, h5, h6, h7, h8, h9⟩ := hx
-  simp only at h1 h2 h3 h4 h5 h6 h7 h8 h9 hw
-  subst h1 h2 h3 h4 h5 h6 h7 h8 h9 hw
+  simp only at h1 h2 h3 h4 h5 h6 h7 h8 h9 hq
+  subst h1 h2 h3 h4 h5 h6 h7 h8 h9
   rcases convertX_inline_ok h with rfl | ⟨root, refs, t, xs, u, o, hb, hr, hu, hf, rfl⟩
   · exact noCtl_nil
-  · obtain ⟨hroot, hrefs, -⟩ := BlkB.parseDocument_strs strDom_adj3 cfg.tab _ (prepare_domB cfg hd) hb
-    have htree : root.Forall (WNodeB 0) := Node.Forall.mono (fun _ hn => wnodeB_of_bnodeP hn) root hroot
-    have hhi := hiSpecXB_nl (xc := xcOf cfg refs false nl) (nl := nl) hcfg (refsOK_of_refsC cfg.esc hrefs) rfl
-    obtain ⟨ht', hhtml⟩ := runX_specB hhi htree hr
+  · have hP : (Blk.AllC (fun c => Blk.okc c && domCharB c) (Pipeline.prepare cfg src) ∧
+        Adj3 (Pipeline.prepare cfg src)) ∧ Qw wl (Pipeline.prepare cfg src) :=
+      ⟨prepare_domB cfg hd, by rw [prepare_eq_normalize cfg hd]; exact hq⟩
+    obtain ⟨hroot, hrefs, -⟩ := BlkB.parseDocument_strs (strDom_adj3q wl) cfg.tab _ hP hb
+    have htree : root.Forall (WNodeB 0) := Node.Forall.mono (fun _ hn => (bnodeP_split hn).1) root hroot
+    have htreeq : root.Forall (QN wl) := Node.Forall.mono (fun _ hn => (bnodeP_split hn).2) root hroot
+    have hhi := hiSpecXB_inline (xc := xcOf cfg refs wl nl) (wl := wl) (nl := nl) hcfg
+      (refsOK_of_refsC cfg.esc hrefs) rfl
+    obtain ⟨ht', hhtml⟩ := runX_specB hhi htree htreeq hr
     have hfn : t.Forall FNode := Node.Forall.mono (fun _ hn => fnode_of_wnodeB hn) t ht'
     have hun := unescapeTree_fnode (prettify_fnode hfn cfg.blockLevel) hu
     have hser := serialize_noctl cfg.fmt hun
     rw [hhtml] at hf
     exact finish_noctl hser hf
+
+/-- end to end with nl2br (wikilinks off) on the domain of `C10_partial_links` -/
+theorem convertX_noctl_nl {x : PipelineX.Exts} (hx : InlineFlagsOnly x) (hw : x.wikilinks = false)
+    {cfg : Pipeline.Cfg} (hcfg : EscOK cfg.esc) {src out : Str} (hd : C10DomainL cfg.tab src)
+    (h : PipelineX.convertX x cfg src = .ok out) : NoCtl out :=
+  convertX_noctl_inline hx hcfg hd (by rw [hw]; intro h; cases h) h
 
 end MdVerif.NoCtlX
